@@ -153,6 +153,22 @@ macro_rules! dim_checks {
                 let i = $M::<S>::identity();
                 ensure_eq!(i.rm(), RM::<S>::ident(n), "identity", "identity() element table");
                 ensure_eq!($M::<S>::one().rm(), RM::<S>::ident(n), "one", "one() element table");
+                {
+                    use num_traits::{One, Zero};
+                    ensure!(i.is_one() && $M::<S>::one().is_one(), "is_one-of-identity", "identity().is_one()");
+                    ensure_eq!(a.is_one(), ta == RM::<S>::ident(n), "is_one", "A.is_one() iff A is the identity");
+                    if S::ORDERED {
+                        // (approximate in the library: an ulps comparison, which the unordered tier cannot evaluate)
+                        ensure!($M::<S>::zero().is_zero(), "is_zero-of-zero", "zero().is_zero()");
+                        ensure_eq!(a.is_zero(), ta == RM::<S>::zero(n), "is_zero", "A.is_zero() iff every entry is zero");
+                    }
+                    let mut m = a;
+                    m.set_one();
+                    ensure_eq!(m, i, "set_one", "set_one() gives the identity");
+                    let mut m = a;
+                    m.set_zero();
+                    ensure_eq!(m.rm(), RM::<S>::zero(n), "set_zero", "set_zero() gives the zero matrix");
+                }
                 ensure_eq!(a * i, a, "identity-right", "A I = A");
                 ensure_eq!(i * a, a, "identity-left", "I A = A");
                 ensure_eq!(a + $M::<S>::zero(), a, "zero", "A + 0 = A");
